@@ -35,7 +35,7 @@ func c09Batches(tier string) int {
 
 func c09Hook(c *core.Collector, x *Ctx) {
 	c.Rule = "frame sequences through the real parser: equal-length escape-free frames with different content one per read (the next read overwrites the same buffer bytes), escaped frames, several frames per read, frames split across reads, " +
-		"sub-packaged transfers in every order for N<=4 and random N<=12 interleaved with plain frames; after EVERY later read and after the end-of-connection clear each delivered message is compared with its snapshot. " +
+		"sub-packaged transfers in every order for N<=4 and random N<=12 interleaved with plain frames, incomplete transfers aged past the 5 s re-request and 60 s expiry thresholds; after EVERY later read and after the end-of-connection clear each delivered message is compared with its snapshot. " +
 		"non-trivial = scenario with >= 2 delivered messages; distinct by hash of the reads"
 	cats := map[string]bool{"stable": true}
 	delivered := c.Counter("scenarios")
@@ -56,6 +56,49 @@ func c09Hook(c *core.Collector, x *Ctx) {
 			c.Sample(map[string]any{"gen": gen, "frames": sc.Frames, "reads": len(sc.Ops)})
 		}
 	}
+	// timer paths: an incomplete transfer, 5.5 s / 61 s of (virtual) idle time, then more traffic — the re-request and the expiry
+	// are built from state that delivered messages may share (the first packet's header)
+	na := c.N(300, 6000)
+	core.ParallelFor(na, ncpu(), func(i int) {
+		r := core.NewRand(c.Seed, "c09age", uint64(i))
+		N := 2 + r.Intn(5)
+		v := r.Bool()
+		id := core.Pick(r, []uint16{0x0801, 0x0704, 0x0200})
+		bodies := c05Bodies(r, N, r.Intn(4))
+		var frames [][]byte
+		var ops []hookOp
+		feed := func(f []byte) {
+			frames = append(frames, f)
+			for _, sg := range hookSplit(f) {
+				ops = append(ops, hookOp{Feed: core.Hex(sg)})
+			}
+		}
+		feed(hookFrameV(v, id, uint16(100+i%50), true, uint16(N), 1, bodies[0]))
+		var missing []int
+		for k := 2; k <= N; k++ {
+			if r.Bool() || (k == N && len(missing) == 0) {
+				missing = append(missing, k)
+			} else {
+				feed(hookFrameV(v, id, uint16(200+k), true, uint16(N), uint16(k), bodies[k-1]))
+			}
+		}
+		ops = append(ops, hookOp{AgeMs: 5600})
+		feed(hookFrameV(v, 0x0002, 1, false, 0, 0, nil)) // re-request produced here
+		ops = append(ops, hookOp{AgeMs: 5600})
+		feed(hookFrameV(v, 0x0002, 2, false, 0, 0, nil)) // and again
+		if i%2 == 0 {
+			for _, k := range missing {
+				feed(hookFrameV(v, id, uint16(300+k), true, uint16(N), uint16(k), bodies[k-1]))
+			}
+		} else {
+			ops = append(ops, hookOp{AgeMs: 61000})
+			feed(hookFrameV(v, 0x0002, 3, false, 0, 0, nil)) // expiry noticed here
+		}
+		feed(hookFrameV(v, 0x0200, 4, false, 0, 0, c04Body(r, 2, 28)))
+		sc := &hookScenario{Kind: "hook", Gen: "transfer with timer paths (re-request, expiry)", Frames: hexAll(frames), Ops: ops}
+		hookEval(c, sc, cats, true)
+		delivered.Add(1)
+	})
 	n := c.N(4000, 300000)
 	core.ParallelFor(n, ncpu(), func(i int) {
 		r := core.NewRand(c.Seed, "c09", uint64(i))
